@@ -162,6 +162,9 @@ def gen_case(rng, tier, est=None, seeded=None):
     case["chunks"] = chunks
     case["ops"] = ops
     # an "integer random_state" may be a Python int or any NumPy integer scalar
+    # k-means and WCCN re-initialise at every fit: training the SAME estimator object again
+    # must give the same result as a fresh one (GMM / ISV / JFA continue from their state)
+    case["reuse_obj"] = est in ("kmeans", "wccn") and rng.random() < 0.4
     case["ydtype"] = rng.choice(["int64", "int64", "int32", "uint8", "uint16", "int8", "uint64"])
     case["cfg"]["rs_type"] = rng.choice(["int", "int", "int64", "int32", "uint32", "uint64"])
     return case
@@ -220,6 +223,9 @@ def _seed(cfg):
     return int(cfg["rs"]) if t == "int" else getattr(np, t)(cfg["rs"])
 
 
+_KEEP = {}
+
+
 def _fit(case, o, rec, label):
     from bob.learn.em import GMMMachine, KMeansMachine, ISVMachine, JFAMachine, WCCN
 
@@ -239,6 +245,8 @@ def _fit(case, o, rec, label):
         init = "random" if False else (cfg["init_method"] if cfg["seeded"] else A(cfg["init"]))
         m = KMeansMachine(cfg["k"], init_method=init, max_iter=cfg["steps"],
                           convergence_threshold=None, random_state=cfg["rs"])
+        if case.get("reuse_obj"):
+            m = _KEEP.setdefault("est", m)
         X = data["X"]
         res = under(lambda: m.fit(da.from_array(X, chunks=(chunks, (X.shape[1],)))
                                   if backend == "da" else X))
@@ -296,9 +304,11 @@ def _fit(case, o, rec, label):
         return out
     if est == "wccn":
         X = data["X"]
+        wc = _KEEP.setdefault("est", WCCN()) if case.get("reuse_obj") else WCCN()
+
         def go():
-            t = WCCN().fit(da.from_array(X, chunks=(chunks, (X.shape[1],)))
-                           if backend == "da" else X, data["y"])
+            t = wc.fit(da.from_array(X, chunks=(chunks, (X.shape[1],)))
+                       if backend == "da" else X, data["y"])
             w = t.weights
             return w.compute() if hasattr(w, "compute") else w
         return [("weights", np.asarray(under(go), float), "rel")]
@@ -335,6 +345,8 @@ def run_case(case, replay=None):
 
     rec = SimRec(replay)
     est = case["kind"]
+    _KEEP.clear()
+    rec.probe("same_estimator_object_refitted", bool(case.get("reuse_obj")))
     if "X" in case:
         s = float(np.abs(A(case["X"])).max()) or 1.0
     else:
